@@ -267,12 +267,25 @@ struct World {
         }
     }
     void write(const WKind &k) { writeText(textFor(k)); }
+    std::string baseFull; // faultMode: what the directory held when this process adopted it
+    // Under crash / fault injection the reference stream is not what the harness sent but what REACHED the active file: the bytes of
+    // every write() that returned on it, in order ("every record that had reached the file ..."). A record the sink could not write
+    // because of the injected failure is not C10's business.
+    void rebuildFullFromLog()
+    {
+        full = baseFull;
+        for (auto &c : vdev::log) if (!strcmp(c.name, "write") && c.result > 0 && c.path == path) full += c.data;
+        recEnd.clear(); recDay.clear();
+        for (size_t i = 0; i < full.size(); i++) if (full[i] == '\n') { recEnd.push_back(i + 1); recDay.push_back("?"); }
+    }
     void writeText(const QString &text)
     {
         QByteArray framed = text.toUtf8() + "\n";
-        full.append(framed.constData(), framed.size());
-        recEnd.push_back(full.size());
-        recDay.push_back(dayStr(vdev::nowMs));
+        if (!faultMode) {
+            full.append(framed.constData(), framed.size());
+            recEnd.push_back(full.size());
+            recDay.push_back(dayStr(vdev::nowMs));
+        }
         recCount++;
         QMessageLogContext ctx("f.cpp", 1, "fn", "cat");
         LogMessage m(QtDebugMsg, ctx, text);
@@ -372,6 +385,7 @@ struct World {
     // ---- the oracles, evaluated on a directory snapshot. final = the sink has been destroyed (everything flushed)
     void check(bool final)
     {
+        if (faultMode) rebuildFullFromLog();
         auto snap = snapshot(dir, final ? nullptr : &decoys); // foreign files: size only between operations, bytes at the end (the monitor sees opens/unlinks)
         std::string act; bool haveActive = false;
         struct Seen { bool plain = false, gz = false; std::string plainBytes, gzBytes; Scheme s; };
@@ -449,6 +463,12 @@ struct World {
             everNames.insert(r.identity);
             auto mit = maxIndexOfDate.find(r.date);
             if (mit != maxIndexOfDate.end() && r.index <= mit->second) violate("C09:index-not-increasing", "rotated " + r.identity + " has index " + std::to_string(r.index) + " <= an earlier index " + std::to_string(mit->second) + " of the same date");
+            {   // a reader can only order rotated files by the (date, index) in their names: that order must be the rotation order
+                const RotFile *prev = nullptr;
+                for (auto it = rot.rbegin(); it != rot.rend(); ++it) if (it->index > 0) { prev = &*it; break; }
+                if (prev && (r.date < prev->date || (r.date == prev->date && r.index <= prev->index)))
+                    violate("C05:name-order", "rotated " + r.identity + " was produced after " + prev->identity + " but sorts before it by (date, index): read in name order, newer records come before older ones");
+            }
             if (!rot.empty() && (r.date < rot.back().date)) violate("C09:date-order", "rotated " + r.identity + " is dated before the previously rotated " + rot.back().identity);
             maxIndexOfDate[r.date] = std::max(mit == maxIndexOfDate.end() ? 0LL : mit->second, r.index);
             if (full.compare(start, content.size(), content) != 0 || start + content.size() > full.size())
@@ -556,10 +576,16 @@ RunResult runHistory(const Config &cfg, const std::vector<Op> &h, const std::vec
     return rr;
 }
 
-std::vector<Op> alphabet(const std::vector<WKind> &wk, int maxDay)
+bool g_reduced = false; // deep-narrow enumeration: only the smallest record and the record of exactly L bytes, D1, R
+
+std::vector<Op> alphabet(const std::vector<WKind> &wk, int maxDay, int L = -1)
 {
     std::vector<Op> a;
-    for (size_t i = 0; i < wk.size(); i++) a.push_back({ 'W', (int)i });
+    for (size_t i = 0; i < wk.size(); i++) {
+        if (g_reduced && (wk[i].special != 0 || !(wk[i].size == 1 || wk[i].size == L || (L <= 1 && wk[i].size == 3)))) continue;
+        a.push_back({ 'W', (int)i });
+    }
+    if (g_reduced) maxDay = 1;
     for (int d = 1; d <= maxDay; d++) a.push_back({ 'D', d });
     a.push_back({ 'R', 0 });
     return a;
@@ -603,7 +629,7 @@ void modeHist(const std::vector<Config> &cfgs, int depth, int maxDay, int shard,
     long long caseNo = 0;
     for (auto &cfg : cfgs) {
         auto wk = writeKinds(cfg);
-        auto alpha = alphabet(wk, maxDay);
+        auto alpha = alphabet(wk, maxDay, cfg.L);
         std::vector<int> idx;
         // enumerate all sequences of length 1..depth in normal form (no D after D, no R after R, no leading R/D... leading D kept: it dates the first record)
         std::function<void(std::vector<Op> &)> rec = [&](std::vector<Op> &h) {
@@ -788,7 +814,7 @@ void followUpWrites(World &w, const Config &cfg)
     w.check(true);
 }
 
-struct CrashPlan { long crashAt = -1, failAt = -1; int failErrno = EACCES; };
+struct CrashPlan { long crashAt = -1, failAt = -1, failFrom = -1; int failErrno = EACCES; };
 
 void childRun(const Config &cfg, const std::vector<Op> &h, const Op &fin, const std::vector<WKind> &wk, CrashPlan plan, const std::string &dir)
 {
@@ -800,17 +826,15 @@ void childRun(const Config &cfg, const std::vector<Op> &h, const Op &fin, const 
     for (auto &o : h) { w.apply(o, wk); w.check(false); }
     w.viols.clear(); // the prefix is fault-free: its verdicts belong to mode hist
     vdev::mutCount = 0; vdev::armed = true;
-    vdev::crashAt = plan.crashAt; vdev::failAt = plan.failAt; vdev::failErrno = plan.failErrno; vdev::failed = false;
+    vdev::crashAt = plan.crashAt; vdev::failAt = plan.failAt; vdev::failFrom = plan.failFrom; vdev::failErrno = plan.failErrno; vdev::failed = false;
     size_t logStart = vdev::log.size();
     static size_t s_logStart; s_logStart = logStart;
     vdev::onCrash = [] {
         World &w = *g_world;
         vdev::armed = false; vdev::preMutate = nullptr;
-        long reached = 0;
-        for (auto &c : vdev::log) if (!strcmp(c.name, "write") && c.result > 0 && !(c.path.size() > 3 && c.path.compare(c.path.size() - 3, 3, ".gz") == 0)) reached += c.result;
         w.opNo++;
         w.check(false);
-        reachedOracle(w, reached);
+        reachedOracle(w, (long)w.full.size());
         g_sh->mutCount = vdev::mutCount;
         g_sh->rotFiles = (long)w.rot.size();
         g_sh->stateHash = w.stateHash;
@@ -826,7 +850,8 @@ void childRun(const Config &cfg, const std::vector<Op> &h, const Op &fin, const 
         auto all = vdev::log; vdev::log = keep; exportCalls(); vdev::log = all;
     }
     w.check(false);
-    if (plan.failAt > 0) followUpWrites(w, cfg);
+    vdev::failFrom = -1;
+    if (plan.failAt > 0 || plan.failFrom > 0) followUpWrites(w, cfg);
     else { w.closeSink(); w.opNo++; w.check(true); }
     exportViols(w);
     g_sh->rotFiles = (long)w.rot.size();
@@ -871,8 +896,9 @@ void childRestart(const Config &cfg, const std::string &dir, const RestartInfo &
             w.rot.push_back({ f->s.identity, f->s.date, f->s.index, c, start, w.full.size(), true, 0, f->hasGz && !f->hasPlain });
         }
         w.full += act;
-        for (size_t i = 0; i < w.full.size(); i++) if (w.full[i] == '\n') { w.recEnd.push_back(i + 1); w.recDay.push_back("?"); }
+        w.baseFull = w.full;
     }
+    vdev::log.clear(); vdev::logging = true;
     // file timestamps of the adopted files: the day of the crash (T0-based histories span <= 3 days)
     vdev::active = true;
     w.installMonitor();
@@ -983,6 +1009,15 @@ void modeCrash(const std::vector<Config> &cfgs, int depth, int shard, int nshard
                         collect(cfg, hs + " : call " + std::to_string(k) + " (" + cn + ") fails with errno " + std::to_string(en) + ", then 3 more writes", "fault", ",\"fail_at\":" + std::to_string(k) + ",\"errno\":" + std::to_string(en));
                         crashSigs.insert("fail-" + cn.substr(0, cn.find(' ')) + "/" + std::to_string(g_sh->rotFiles));
                     }
+                    {   // the operation as a whole fails: from this call on the directory is read-only for the rest of the write (rename, link, unlink and file
+                        // creation fail; data writes to existing files still work), then the condition clears and 3 more records are written
+                        CrashPlan pl; pl.failFrom = k; pl.failErrno = EACCES;
+                        wipe(g_dir);
+                        forkDo([&] { childRun(cfg, h, fin, wk, pl, g_dir); });
+                        if (!g_sh->failedFlag) { fprintf(stderr, "ENGINE: persistent fault %ld not injected in %s\n", k, hs.c_str()); exit(3); }
+                        sum.cases++; sum.transitions += 5; sum.counters["persistent_faults_injected"]++;
+                        collect(cfg, hs + " : from call " + std::to_string(k) + " (" + cn + ") on, every directory-modifying call of this write fails (read-only directory), then 3 more writes", "fault", ",\"fail_from\":" + std::to_string(k));
+                    }
                 }
             }
         }
@@ -1001,6 +1036,7 @@ int main(int argc, char **argv)
     int depth = vx::argInt(argc, argv, "--depth", 3);
     int shard = vx::argInt(argc, argv, "--shard", 0), nshards = vx::argInt(argc, argv, "--nshards", 1);
     int maxDay = vx::argInt(argc, argv, "--maxday", 2);
+    g_reduced = vx::argInt(argc, argv, "--reduced", 0) != 0;
     std::vector<Config> cfgs;
     for (auto &c : QString::fromLatin1(vx::argStr(argc, argv, "--configs", "5,3,0,0,0")).split(';', Qt::SkipEmptyParts)) cfgs.push_back(parseConfig(c.toStdString()));
     char tmpl[] = "/dev/shm/verif-vfs-XXXXXX";
